@@ -29,12 +29,13 @@ Qed.
 Section Generic.
 Variable P : table -> Prop.
 Variable E : table -> list (str * str) -> Prop.     (* side condition of UpdateTable / AddIndex on the new definitions *)
+Variable U : ictx -> table -> item -> str -> fmap str -> item -> Prop.   (* side condition of UpdateItem: key, expression, names, values *)
 Variable lang_match : str -> item -> item -> fmap str -> outcome bool.
 Variable lang_update : str -> item -> item -> fmap str -> outcome item.
 Variable flavour : sdk.
 
 Hypothesis P_put : forall c t it cond names vals, P t -> P (fst (t_put lang_match c t it cond names vals)).
-Hypothesis P_update : forall c t k e cond names vals, P t -> P (fst (t_update lang_match lang_update c t k e cond names vals)).
+Hypothesis P_update : forall c t k e cond names vals, P t -> U c t k e names vals -> P (fst (t_update lang_match lang_update c t k e cond names vals)).
 Hypothesis P_delete : forall c t k cond names vals, P t -> P (fst (t_delete lang_match c t k cond names vals)).
 Hypothesis P_clear : forall t, P t -> P (t_clear t).
 Hypothesis P_empty : forall n ks defs, P {| t_name := n; t_ks := ks; t_defs := defs; t_sorted := []; t_data := []; t_indexes := [] |}.
@@ -56,6 +57,7 @@ Definition step_env (c : client) (o : op) : Prop :=
   | OUpdateTable tn defs _ _ => forall t, lookup tn (c_tables c) = Some t -> E t defs
   | OAddIndex tn _ h r => forall t, lookup tn (c_tables c) = Some t ->
                            E t ((h, bs "S") :: match r with [] => [] | _ => [(r, bs "S")] end)
+  | OUpdate tn k e _ names vals _ => forall t, lookup tn (c_tables c) = Some t -> U (ctx_of c) t k e names vals
   | _ => True
   end.
 
@@ -97,12 +99,12 @@ Proof.
 Qed.
 
 Lemma CInv_update_item c tn k e cond names vals ao :
-  CInv c -> CInv (fst (update_item lang_match lang_update flavour c tn k e cond names vals ao)).
+  CInv c -> (forall t, lookup tn (c_tables c) = Some t -> U (ctx_of c) t k e names vals) -> CInv (fst (update_item lang_match lang_update flavour c tn k e cond names vals ao)).
 Proof.
-  intros H. unfold update_item.
+  intros H Hu. unfold update_item.
   destruct (preamble flavour c tn names vals _) as [er|t] eqn:Pr; cbn; auto.
   apply preamble_lookup in Pr.
-  pose proof (P_update (ctx_of c) t k e cond names vals (CInv_P _ _ _ H Pr)) as T.
+  pose proof (P_update (ctx_of c) t k e cond names vals (CInv_P _ _ _ H Pr) (Hu _ Pr)) as T.
   destruct (t_update lang_match lang_update (ctx_of c) t k e cond names vals) as [t' r]; cbn in *.
   destruct r as [| | [] | |]; cbn; auto. now apply CInv_set_table.
 Qed.
@@ -327,7 +329,7 @@ Variable lang_match : str -> item -> item -> fmap str -> outcome bool.
 Variable lang_update : str -> item -> item -> fmap str -> outcome item.
 Variable flavour : sdk.
 
-Lemma run_env_True ops : forall w, run_env (fun _ _ => True) lang_match lang_update flavour w ops.
+Lemma run_env_True ops : forall w, run_env (fun _ _ => True) (fun _ _ _ _ _ _ => True) lang_match lang_update flavour w ops.
 Proof.
   induction ops as [|o ops IH]; intros w; cbn; auto. split; auto.
   destruct (snd o); cbn; auto.
@@ -337,9 +339,9 @@ Theorem TInv_reachable ops cn tn c t :
   lookup cn (fst (run lang_match lang_update flavour [] ops)) = Some c ->
   lookup tn (c_tables c) = Some t -> TInv t.
 Proof.
-  apply (P_reachable TInv (fun _ _ => True) lang_match lang_update flavour).
+  apply (P_reachable TInv (fun _ _ => True) (fun _ _ _ _ _ _ => True) lang_match lang_update flavour).
   - apply TInv_put.
-  - apply TInv_update.
+  - intros c0 t0 k e cond names vals H _. now apply TInv_update.
   - apply TInv_delete.
   - intros t0 _. apply TInv_clear.
   - intros n ks defs. split; cbn; [apply wf_nil|reflexivity].
